@@ -36,7 +36,8 @@ CHECKS = [
                     'file-system event, complete per history), per torn write/copy cut and per sampled I/O-error placement '
                     '(with retry), with and without a cross-device temp dir. Oracle: WriterModel on the directory tree '
                     '(I1 deferral, I2 exact final content and first-free backup, I3 nothing pre-existing lost after any '
-                    'interruption, I4 after retry). Second layer: simulated martinize2 processes (real entry()) in a working directory '
+                    'interruption, I4 after retry; after a third of the crashes a new process re-runs the whole history on the tree the '
+                    'crash left behind and the original files must still be there). Second layer: simulated martinize2 processes (real entry()) in a working directory '
                     'with pre-existing outputs, real and injected warnings, generated -maxwarn lists and crashes / I/O errors during the '
                     'CLI\'s own finalisation: nothing is written before the gate, no finalisation and non-zero exit when warnings are '
                     'left, backups and contents exact otherwise.',
